@@ -11,7 +11,9 @@ import CpModel.Gen.C11Tables
   Part 2: `urllib.parse.unquote` (percent-decoding of the ASCII runs + UTF-8 decoding with
   errors='replace').  The theorems treat it as an arbitrary function; this executable version
   is only used by the driver and is validated against the library on every run.
-  Part 3: `staticdir` decision + access list against an abstract `stat` result.
+  Part 3: `staticdir` decision + access list against an abstract `stat` result (the code as
+  repaired for F32: the normalised, tested name goes to the OS; `staticdirPreF32` /
+  `getFilePathPreF32` keep the earlier behaviour for the refutations).
   Part 4: `FileSession` path derivation, the five methods using it, `clean_up`, and the
   per-request flow of the session tool (`init` → lock → handler action → `save`).
   Part 5: physical resolution of a path in a symlink-free tree (what the OS does with the
@@ -279,8 +281,27 @@ def serveChecked (fs : Str → Kind) (filename index : Str) : Result :=
       | .served acc2 => ⟨.served (join filename index), acc ++ acc2⟩
       | .notFound acc2 => ⟨.notHandled, acc ++ acc2⟩
 
+/-- What `staticdir` hands to `_attempt` since the F32 repair: the NORMALISED name it has just
+    tested (`target = normfile`), with the trailing separator of the raw name kept
+    (`if filename.endswith(os.sep) and not target.endswith(os.sep): target += os.sep`). -/
+def staticTarget (filename : Str) : Str :=
+  if endsSlash filename = true ∧ endsSlash (normpath filename) = false then normpath filename ++ ['/']
+  else normpath filename
+
 /-- `staticdir(section, dir, root, match, content_types, index)`. -/
 def staticdir (unq : Str → Str) (fs : Str → Kind) (i : StaticIn) : Result :=
+  if i.method ≠ strGET ∧ i.method ≠ strHEAD then ⟨.passThrough, []⟩
+  else if i.matchOk = false then ⟨.passThrough, []⟩
+  else match staticDir i with
+    | none => ⟨.valueError, []⟩
+    | some dir =>
+      let filename := join dir (staticBranch unq i)
+      if containedCheck (normpath dir) (normpath filename) = false then ⟨.forbidden, []⟩
+      else serveChecked fs (staticTarget filename) i.index
+
+/-- `staticdir` before the F32 repair (the un-normalised `filename` went to `_attempt`), kept to
+    show what a regression to it would break. -/
+def staticdirPreF32 (unq : Str → Str) (fs : Str → Kind) (i : StaticIn) : Result :=
   if i.method ≠ strGET ∧ i.method ≠ strHEAD then ⟨.passThrough, []⟩
   else if i.matchOk = false then ⟨.passThrough, []⟩
   else match staticDir i with
@@ -303,19 +324,27 @@ def containedCheckStrPrefix (normdir normfile : Str) : Bool := startsWith normfi
 def sessionRoot (cwd storage : Str) : Str := abspath cwd storage
 
 /-- `os.path.join(self.storage_path, self.SESSION_PREFIX + self.id)` -/
-def sessionFile (sp id : Str) : Str := join sp (sessionPrefix ++ id)
+def sessionFileRaw (sp id : Str) : Str := join sp (sessionPrefix ++ id)
+
+/-- `f = os.path.abspath(os.path.join(self.storage_path, self.SESSION_PREFIX + self.id))`: since the
+    F32b repair the normalised name is the one that is tested AND returned. -/
+def sessionFile (cwd sp id : Str) : Str := abspath cwd (sessionFileRaw sp id)
 
 /-- The repaired test of `_get_file_path` (True = allowed). -/
 def sessionCheck (cwd sp id : Str) : Bool :=
-  startsWith (abspath cwd (sessionFile sp id)) (join sp [])
+  startsWith (sessionFile cwd sp id) (join sp [])
 
-/-- The pre-repair test (`abspath(f).startswith(storage_path)`). -/
+/-- The pre-F11 test (`abspath(f).startswith(storage_path)`). -/
 def sessionCheckStrPrefix (cwd sp id : Str) : Bool :=
-  startsWith (abspath cwd (sessionFile sp id)) sp
+  startsWith (abspath cwd (sessionFileRaw sp id)) sp
 
 /-- `_get_file_path`: `none` = `HTTPError(400, 'Invalid session id in cookie.')`. -/
 def getFilePath (cwd sp id : Str) : Option Str :=
-  if sessionCheck cwd sp id then some (sessionFile sp id) else none
+  if sessionCheck cwd sp id then some (sessionFile cwd sp id) else none
+
+/-- `_get_file_path` before the F32b repair: same test, but the UN-normalised name was returned. -/
+def getFilePathPreF32 (cwd sp id : Str) : Option Str :=
+  if sessionCheck cwd sp id then some (sessionFileRaw sp id) else none
 
 /-- `s.endswith(suf)` -/
 def endsWith (s suf : Str) : Bool := suf.reverse.isPrefixOf s.reverse
@@ -328,6 +357,18 @@ inductive SessOp where
     `_exists` does not look at names ending in LOCK_SUFFIX (they are never session data). -/
 def sessOp (op : SessOp) (cwd sp id : Str) : Option (List Access) :=
   match getFilePath cwd sp id with
+  | none => none
+  | some f =>
+    some (match op with
+      | .exists_ => if endsWith f lockSuffix then [] else [⟨.stat, f⟩]
+      | .load => [⟨.openR, f⟩]
+      | .save => [⟨.openW, f⟩]
+      | .delete => [⟨.unlink, f⟩]
+      | .acquireLock => [⟨.lock, f ++ lockSuffix⟩])
+
+/-- `sessOp` before the F32b repair. -/
+def sessOpPreF32 (op : SessOp) (cwd sp id : Str) : Option (List Access) :=
+  match getFilePathPreF32 cwd sp id with
   | none => none
   | some f =>
     some (match op with
@@ -391,7 +432,7 @@ def sessionRequest (cwd storage : Str) (cookie : Option Str) (present : Bool)
   | some id => do
     let e ← sessOp .exists_ cwd sp id
     -- `_exists` answers False for a name ending in LOCK_SUFFIX without looking
-    if present && !endsWith (sessionFile sp id) lockSuffix then
+    if present && !endsWith (sessionFile cwd sp id) lockSuffix then
       let r ← afterInit cwd sp id gen2 a
       pure (e ++ r)
     else
